@@ -27,13 +27,8 @@ EXPECTED = {
     ("stored-invalid", "foreign-id"): "ValidateOnStore",
     ("valid-not-stored", "blocked-by-foreign-id"): "ValidateOnStore",
     ("transient-failure-dropped", "fault"): "TransientRetried",
-    ("valid-not-stored", "fault"): "TransientRetried",
-    ("revocation-not-registered", "fault"): "TransientRetried",
     ("transient-failure-dropped", "nokey"): "UnknownKeyRetried",
-    ("valid-not-stored", "nokey"): "UnknownKeyRetried",
-    ("revocation-not-registered", "nokey"): "UnknownKeyRetried",
     ("transient-failure-dropped", "ctxdown"): "ContextErrorsSeen",
-    ("valid-not-stored", "ctxdown"): "ContextErrorsSeen",
 }
 
 
@@ -96,7 +91,7 @@ def select(behaviours, n, rnd):
     return chosen
 
 
-TLC_WORKERS = 2   # four model runs at a time: never more than 8 TLC workers
+TLC_WORKERS = 1   # four model runs at a time (the two large ones with 3 workers): never more than 8 TLC workers
 
 
 def tlc_ok(module, cfg, what, **kw):
@@ -173,17 +168,24 @@ def run(prop, tier, seed, replay=None):
     scripts = []
     counters = dict(fc=rnd.randrange(50), mc=rnd.randrange(50), vc=rnd.randrange(50), fr=rnd.randrange(50), vr=rnd.randrange(50))
     n_wit = 0
-    per_family = 220 if quick else 900
-    n_sim = 80 if quick else 400
+    per_family = 120 if quick else 900
+    n_sim = 60 if quick else 400
     from concurrent.futures import ThreadPoolExecutor
     pool = ThreadPoolExecutor(max_workers=4)
     fut = {}
-    for fam in FAMILIES:
+    order = FAMILIES if quick else ["fault", "core", "squat", "key"]   # the large ones first
+    for fam in order:
         check_cfg = "VcLife.%s.%s.cfg" % (fam, "quick" if quick else "thorough")
-        fut[fam, "check"] = (check_cfg, pool.submit(tlc_ok, "MCVcLife", check_cfg, "prescriptive", timeout=900, coverage=not quick))
+        big = 3 if fam == order[0] else (2 if fam == order[1] else 1)
+        genw = (3 if fam == "core" else 1) if quick else (2 if fam == "core" else 1)   # never more than 8 workers at a time (pool of 4)
+        fut[fam, "check"] = (check_cfg, pool.submit(tlc_ok, "MCVcLife", check_cfg, "prescriptive", timeout=900, workers=big))
+        if not quick:   # vacuity guard (every action fires) on the small config: coverage mode is slow
+            fut[fam, "cover"] = ("VcLife.%s.quick.cfg" % fam, pool.submit(tlc_ok, "MCVcLife", "VcLife.%s.quick.cfg" % fam, "coverage", timeout=900, coverage=True))
         gen_cfg = "VcLife.%s.gen.cfg" % fam
-        fut[fam, "gen"] = (gen_cfg, pool.submit(tlc_ok, "MCVcLife", gen_cfg, "generation", timeout=900))
+        fut[fam, "gen"] = (gen_cfg, pool.submit(tlc_ok, "MCVcLife", gen_cfg, "generation", timeout=900, workers=genw))
         fut[fam, "sim"] = (gen_cfg, pool.submit(vlib.tlc, "MCVcLife", gen_cfg, workers=1, simulate="num=%d" % n_sim, depth=24, seed=seed, timeout=300))
+    n_mix = 60 if quick else 600
+    fut["mix"] = ("VcLife.mix.gen.cfg", pool.submit(vlib.tlc, "MCVcLife", "VcLife.mix.gen.cfg", workers=1, simulate="num=%d" % n_mix, depth=40, seed=seed, timeout=300))
     fut["pub"] = ("VcLife.pub.gen.cfg", pool.submit(tlc_ok, "MCVcLife", "VcLife.pub.gen.cfg", "publisher", timeout=300))
     fut["live"] = ("VcLife.live.cfg", pool.submit(tlc_ok, "MCVcLife", "VcLife.live.cfg", "liveness", timeout=900))
     for fam in FAMILIES:
@@ -193,8 +195,13 @@ def run(prop, tier, seed, replay=None):
         states += m.distinct
         transitions += m.generated
         models.append(dict(cfg=check_cfg, states=m.distinct, transitions=m.generated, depth=m.depth, wall_s=round(m.wall, 1)))
-        for k, v in m.coverage.items():
-            cover[k] = cover.get(k, 0) + v
+        if not quick:
+            mc = fut[fam, "cover"][1].result()
+            states += mc.distinct
+            transitions += mc.generated
+            models.append(dict(cfg=fut[fam, "cover"][0], states=mc.distinct, transitions=mc.generated, coverage=True))
+            for k, v in mc.coverage.items():
+                cover[k] = cover.get(k, 0) + v
         tables = tables or tables_of(m)
         # 2. behaviours of the code's variant of the specification
         gen_cfg, f = fut[fam, "gen"]
@@ -213,6 +220,12 @@ def run(prop, tier, seed, replay=None):
             scripts.append(dict(id="%s-w%04d" % (fam, i), steps=b))
         for i, b in enumerate(sim[:n_sim]):
             scripts.append(dict(id="%s-s%04d" % (fam, i), steps=b))
+    s = fut["mix"][1].result()
+    if s.error and "timeout" in s.error:
+        raise Inconclusive(s.error)
+    mix = vlib.dedupe_maximal([p["steps"] for p in s.printed if isinstance(p, dict) and "steps" in p])
+    for i, b in enumerate(mix[:n_mix]):
+        scripts.append(dict(id="mix-s%04d" % i, steps=b))
     scripts += directed_scripts()
     for sc in scripts:
         sc["variants"] = variants_for(tx_of(sc["steps"]), tables, counters)
@@ -291,8 +304,8 @@ def run(prop, tier, seed, replay=None):
             if x["kind"].startswith("invariant:"):
                 rep.violation(dict(kind="trace-" + x["kind"], cause=""), dict(property=prop, trace=traces[x["index"]], rejected=x,
                               input=dict(mode=mode, tables=tables, scripts=[by_id[good[x["index"]]["id"]]], issuers=ISSUERS, init_trust=INIT_TRUST, init_keys=INIT_KEYS)))
-        if len(rej) > max(3, len(traces) // 10) and not rep.violations:
-            rep.inconclusive.append("%d of %d recorded %s traces are not behaviours of the specification (spec/code drift)" % (len(rej), len(traces), mode))
+        if len(rej) > 3 and not rep.violations:   # (validate_traces stops after 12 rejections)
+            rep.inconclusive.append("at least %d of %d recorded %s traces are not behaviours of the specification (spec/code drift)" % (len(rej), len(traces), mode))
 
     # 6. vacuity guards and liveness
     if not quick or os.environ.get("VERIF_X07_FULL"):
